@@ -165,6 +165,7 @@ def rec_loop(seed):
     maxsma = rng.choice([None, None, 15.0, 25.0, 45.0, 90.0, 300.0])       # also far beyond the frame
     minsma = rng.choice([0.0, 0.0, 0.3, 1.0, 3.0, 7.0])
     mode = rng.choice(['bilinear', 'bilinear', 'nearest_neighbor', 'mean'])
+    maxrit = rng.choice([None, None, None, 14.0, 33.0])
     grow = (lambda v: v + step) if linear else (lambda v: v * (1.0 + step))
     shrink = (lambda v: v - step) if linear else (lambda v: v / (1.0 + step))
 
@@ -181,22 +182,34 @@ def rec_loop(seed):
     kmin, v = 1, shrink(sma0)
     while v > floor:
         v = shrink(v); kmin += 1
+    krit = 0
+    if maxrit:      # first exponent (of either sign) whose sma is > maxrit
+        v = sma0
+        if v > maxrit:
+            while v > maxrit:
+                v = shrink(v); krit -= 1
+            krit += 1
+        else:
+            while v <= maxrit:
+                v = grow(v); krit += 1
     calls = []
     orig = Ellipse.fit_isophote
 
     def wrapped(self, sma, *a, **kw):
-        if len(calls) >= 200:
+        if len(calls) >= 200 or sma > 40 * n:      # (an ellipse 40 frame sizes wide: the growth has run away)
             raise _Budget()
         iso = orig(self, sma, *a, **kw)
-        calls.append({'ph': 'central' if sma == 0.0 else 'fit', 'k': 0 if sma == 0.0 else expo(sma), 'code': int(iso.stop_code), 'niter': int(iso.niter)})
+        smp = iso.sample
+        thin = bool(sma > 0 and getattr(smp, 'total_points', 0) and smp.actual_points < smp.total_points * 0.7)      # fflag default 0.7
+        calls.append({'ph': 'central' if sma == 0.0 else 'fit', 'k': 0 if sma == 0.0 else expo(sma), 'code': int(iso.stop_code), 'niter': int(iso.niter), 'thin': thin})
         return iso
-    rec = {'id': 2 * 10**7 + seed, 'kind': 'loop', 'par': {'HasMax': bool(maxsma), 'KMax': kmax, 'KMin': kmin, 'MinZero': minsma == 0.0, 'Variant': 'repaired'},
+    rec = {'id': 2 * 10**7 + seed, 'kind': 'loop', 'par': {'HasMax': bool(maxsma), 'KMax': kmax, 'KMin': kmin, 'MinZero': minsma == 0.0, 'Variant': 'repaired', 'HasRit': bool(maxrit), 'KRit': krit},
            'budget_exceeded': False, 'raised': False, 'final': [], 'params': {'law': law, 'mode': 'loop:' + mode, 'eps': int(eps * 100), 'fix': 'none', 'pa': 1},
-           'request': {'n': n, 'sma0': sma0, 'step': step, 'linear': linear, 'minsma': minsma, 'maxsma': maxsma or 0.0, 'centre': [cx, cy]}}
+           'request': {'n': n, 'sma0': sma0, 'step': step, 'linear': linear, 'minsma': minsma, 'maxsma': maxsma or 0.0, 'maxrit': maxrit or 0.0, 'centre': [cx, cy]}}
     Ellipse.fit_isophote = wrapped
     try:
         g = EllipseGeometry(cx + rng.uniform(-0.4, 0.4), cy + rng.uniform(-0.4, 0.4), sma0, min(0.8, eps + rng.uniform(-0.05, 0.05)), pa + rng.uniform(-0.1, 0.1))
-        iso = Ellipse(img, g).fit_image(sma0=sma0, minsma=minsma, maxsma=maxsma, step=step, linear=linear, integrmode=mode)
+        iso = Ellipse(img, g).fit_image(sma0=sma0, minsma=minsma, maxsma=maxsma, step=step, linear=linear, integrmode=mode, maxrit=maxrit)
         rec['final'] = [[-1000 if i.sma == 0.0 else expo(i.sma), int(i.stop_code)] for i in iso]
     except _Budget:
         rec['budget_exceeded'] = True
@@ -212,6 +225,7 @@ GEN_LOOP = {   # constants of spec/GEN_IsoGrowth_<x>.cfg  ->  a fit_image reques
     'a': dict(sma0=10.0, step=0.5, minsma=3.5, maxsma=45.0),      # HasMax, KMax = 4, KMin = 3
     'b': dict(sma0=2.0, step=0.5, minsma=0.0, maxsma=None),       # no maxsma, KMin = 4, central isophote
     'c': dict(sma0=2.0, step=0.5, minsma=0.0, maxsma=6.0),        # HasMax, KMax = 3, KMin = 4, central isophote
+    'd': dict(sma0=10.0, step=0.5, minsma=3.5, maxsma=45.0, maxrit=18.0),      # as 'a' with non-iterative fits from exponent 2 on (sma 22.5 > maxrit)
 }
 _LOOP_IMG = None
 
@@ -247,7 +261,7 @@ def replay_loop(args):
         sample = EllipseSample(self.image, sma, astep=step, linear_growth=linear, geometry=geometry, integrmode=integrmode)
         sample.update(geometry.fix)
         iso = Isophote(sample, 0 if code == 4 else 10, code != 3, code)
-        calls.append((expo(sma), code, bool(noniterate)))
+        calls.append((expo(sma), code, bool(noniterate or (maxrit and sma > maxrit))))
         if isophote_list is not None and iso.valid:
             isophote_list.append(iso)
         return iso
@@ -255,7 +269,7 @@ def replay_loop(args):
     Ellipse.fit_isophote = stub
     got = None
     try:
-        iso = Ellipse(_LOOP_IMG, EllipseGeometry(60.0, 60.0, sma0, 0.2, 0.6)).fit_image(sma0=sma0, minsma=rq['minsma'], maxsma=rq['maxsma'], step=step)
+        iso = Ellipse(_LOOP_IMG, EllipseGeometry(60.0, 60.0, sma0, 0.2, 0.6)).fit_image(sma0=sma0, minsma=rq['minsma'], maxsma=rq['maxsma'], step=step, maxrit=rq.get('maxrit'))
         got = [[expo(i.sma), int(i.stop_code)] for i in iso]
     except _Budget:
         problems.append('fit_image asks for more fits than the model behaviour has')
@@ -325,7 +339,7 @@ def run(ctx):
     q = ctx.quick
     ctx.rule = ('TLC-enumerated lattice eps {0.05,0.1,0.2,0.5,0.8} x 8 position angles x {Gaussian, exponential, Sersic} x fix flags x integration (bilinear, nearest, mean, median) / growth '
                 'modes x 2 centres x {square, wide, tall, near the left / bottom border, large (sma to 65)} frames x first guess {near, perpendicular PA (round galaxies)}, a seeded stratified sample of which is fitted with fit_image from a perturbed start; non-trivial = eps >= 0.2 or a fix flag set')
-    for cfg in ('MC_IsoGrowth.cfg', 'MC_IsoGrowth_lin.cfg', 'MC_IsoGrowth_inside.cfg', 'MC_IsoGrowth_outside.cfg') + (() if q else ('MC_IsoGrowth_t.cfg',)):
+    for cfg in ('MC_IsoGrowth.cfg', 'MC_IsoGrowth_rit.cfg', 'MC_IsoGrowth_rit_nomax.cfg', 'MC_IsoGrowth_lin.cfg', 'MC_IsoGrowth_inside.cfg', 'MC_IsoGrowth_outside.cfg') + (() if q else ('MC_IsoGrowth_t.cfg',)):
         r = ctx.mc('IsoGrowth', cfg, timeout=1800, workers=4)
     # the loop as it stood in the pinned tree must be REJECTED by TLC: it re-tries an invalid outward fit for ever and indexes an empty list
     for cfg, what in (('MC_IsoGrowth_pinned_live.cfg', 'Termination'), ('MC_IsoGrowth_pinned_crash.cfg', 'NoCrash')):
@@ -334,7 +348,7 @@ def run(ctx):
             raise core.Machinery(f'vacuity guard: TLC accepted the pinned growth loop ({what})')
     # spec -> code: every complete behaviour of the machine through the real control flow (stubbed fit_isophote)
     beh = []
-    for tag in ('a', 'b', 'c'):
+    for tag in ('a', 'b', 'c', 'd'):
         g = ctx.tlc('IsoGrowthGen', f'GEN_IsoGrowth_{tag}.cfg', part=f'GEN:IsoGrowth/{tag}', workers=1)
         for r in g.records:
             if r.get('_tag') == 'GEN':
@@ -355,7 +369,7 @@ def run(ctx):
         if not v['ok']:
             rq = r['request']
             ctx.violation('loop:' + v['clause'], {'law': r['params']['law'], 'mode': r['params']['mode'], 'linear': rq['linear'], 'has_maxsma': bool(rq['maxsma']),
-                                                  'minsma_zero': rq['minsma'] == 0.0, 'kind': 'loop'}, {'case': r, 'rejected_at_event': v.get('at')})
+                                                  'minsma_zero': rq['minsma'] == 0.0, 'has_maxrit': bool(rq.get('maxrit')), 'kind': 'loop'}, {'case': r, 'rejected_at_event': v.get('at')})
         else:
             ctx.traces += 1
     ctx.evaluations += len(loops); ctx.nontrivial += sum(1 for r in loops if any(c['code'] not in (0, 2) for c in r['calls']))
